@@ -330,6 +330,7 @@ var inlineDeps = map[string]bool{
 	"time": true,
 	"github.com/apernet/quic-go/internal/monotime": true,
 	"github.com/apernet/quic-go/monotime":          true,
+	"github.com/apernet/quic-go/quicvarint":        true,
 }
 
 func (eng *Engine) needPow2(vc *VC) {
